@@ -28,6 +28,23 @@ Definition burnthin (nb nt : nat) (l : list A) : option (list A) :=
   else if (nt =? 0)%nat then None
   else Some (thin nt (skipn nb l)).
 
+(* The same call for ARBITRARY integers (outside the documented domain "Nb: number of samples to remove,
+   Nt: select every Nt-th sample"; the code only validates Nb >= Ns): what `samples[..., Nb::Nt]` does.
+   Nb < 0 counts from the end (keeps the last |Nb| draws, all of them if |Nb| > Ns); Nt < 0 walks
+   BACKWARDS from draw Nb (from the last draw counted from the end for Nb < 0; nothing if that is before
+   the first draw). *)
+Definition burnthin_z (nb nt : Z) (l : list A) : option (list A) :=
+  let n := Z.of_nat (length l) in
+  if (n <=? nb)%Z then None
+  else if (nt =? 0)%Z then None
+  else if (0 <? nt)%Z then
+    let start := if (0 <=? nb)%Z then nb else Z.max 0 (n + nb) in
+    Some (thin (Z.to_nat nt) (skipn (Z.to_nat start) l))
+  else
+    let start := if (0 <=? nb)%Z then nb else (n + nb)%Z in
+    if (start <? 0)%Z then Some []
+    else Some (thin (Z.to_nat (- nt)) (rev (firstn (Z.to_nat start + 1) l))).
+
 (* a sequence of burnthin calls, each applied to the result of the previous one *)
 Fixpoint burnthin_seq (ops : list (nat * nat)) (l : list A) : option (list A) :=
   match ops with
@@ -132,6 +149,10 @@ Definition check_burnthin (nb nt : nat) (chain : list (list Z)) (observed : opti
            (flags_kept src_unchanged : bool) : bool :=
   opt_eqb zll_eqb (burnthin nb nt chain) observed && flags_kept && src_unchanged.
 
+Definition check_burnthin_z (nb nt : Z) (chain : list (list Z)) (observed : option (list (list Z)))
+           (flags_kept src_unchanged : bool) : bool :=
+  opt_eqb zll_eqb (burnthin_z nb nt chain) observed && flags_kept && src_unchanged.
+
 Definition check_burnthin_seq (ops : list (nat * nat)) (chain : list (list Z)) (observed : option (list (list Z))) : bool :=
   opt_eqb zll_eqb (burnthin_seq ops chain) observed.
 
@@ -153,3 +174,65 @@ Definition check_ci (dim : nat) (samples : list (list Z)) (cn : Z) (cd : positiv
 
 Definition check_arviz (names : list string) (rows : list (list Z)) (observed : list (string * list Z)) : bool :=
   list_eqb (fun a b => String.eqb (fst a) (fst b) && zl_eqb (snd a) (snd b)) (arviz_dict names rows) observed.
+
+(* ---------------- chains with thousands of draws ----------------
+   The chain is not written into the case file: it is the sequence x_0 = seed mod M, x_{i+1} = (A x_i + C) mod M,
+   draw_i = x_i - M/2 (the harness builds the array from the same formula); the burn-thinned chain is compared
+   through its length and an order-sensitive polynomial hash, the statistics as usual. *)
+Definition big_M : Z := 1000003. Definition big_A : Z := 48271. Definition big_C : Z := 12345.
+Fixpoint big_chain_from (x : Z) (n : nat) : list Z :=
+  match n with O => [] | S n' => (x - big_M / 2)%Z :: big_chain_from ((big_A * x + big_C) mod big_M)%Z n' end.
+Definition big_chain (seed : Z) (n : nat) : list Z := big_chain_from (seed mod big_M)%Z n.
+Definition zhash (l : list Z) : Z := fold_left (fun h v => ((h * 1000003 + v) mod (2 ^ 61 - 1))%Z) l 0%Z.
+
+(* merge sort (fuel = length), used only to evaluate order statistics of long chains quickly; the percentile of the
+   model is DEFINED with the insertion sort above, and Proofs/C19_Percentile.v shows that any sorted permutation
+   gives the same value (percentile_order_statistics); check_big compares the two sorts on every case *)
+Fixpoint merge (a : list Z) : list Z -> list Z :=
+  match a with
+  | [] => fun b => b
+  | x :: a' => fix merge_b (b : list Z) : list Z :=
+      match b with
+      | [] => a
+      | y :: b' => if (x <=? y)%Z then x :: merge a' b else y :: merge_b b'
+      end
+  end.
+Fixpoint split_half (l : list Z) : list Z * list Z :=
+  match l with
+  | x :: y :: r => let (a, b) := split_half r in (x :: a, y :: b)
+  | _ => (l, [])
+  end.
+Fixpoint msort_fuel (fuel : nat) (l : list Z) : list Z :=
+  match fuel with
+  | O => l
+  | S f => match l with
+           | [] | [_] => l
+           | _ => let (a, b) := split_half l in merge (msort_fuel f a) (msort_fuel f b)
+           end
+  end.
+Definition msort (l : list Z) : list Z := msort_fuel (length l) l.
+Fixpoint sortedb (l : list Z) : bool :=
+  match l with x :: ((y :: _) as r) => (x <=? y)%Z && sortedb r | _ => true end.
+
+Definition percentile_on (s : list Z) (n : Z) (pn : Z) (pd : positive) : Q :=
+  let B := (100 * Z.pos pd)%Z in inject_Z (interpZ s B (pn * (n - 1))) / inject_Z B.
+
+Definition check_big (seeds : list Z) (ns nb nt : nat) (o_len : nat) (o_hash : list Z)
+           (o_mean o_var o_median o_stdsq : list Q) (cn : Z) (cd : positive) (o_lo o_hi : list Q) (intact : bool) : bool :=
+  let rows := map (fun sd => big_chain sd ns) seeds in
+  let sorted := map msort rows in
+  let n := Z.of_nat ns in
+  forallb sortedb sorted &&
+  list_eqb Nat.eqb (map (@length Z) sorted) (map (fun _ => ns) seeds) &&
+  list_eqb Z.eqb (map zsum sorted) (map zsum rows) &&                       (* cheap necessary conditions of "permutation" *)
+  (match rows with r :: _ => if (ns <=? 1200)%nat then zl_eqb (isort r) (msort r) else true | [] => false end) &&
+  list_eqb (opt_eqb (fun a b => Nat.eqb (fst a) (fst b) && Z.eqb (snd a) (snd b)))
+           (map (fun r => match burnthin nb nt r with Some c => Some (length c, zhash c) | None => None end) rows)
+           (map (fun h => Some (o_len, h)) o_hash) &&
+  ql_close tol9 o_mean (map mean rows) &&
+  ql_close tol9 o_var (map variance rows) &&
+  ql_close tol9 o_stdsq (map variance rows) &&
+  ql_close tol9 o_median (map (fun s => percentile_on s n 50 1) sorted) &&
+  ql_close tol9 o_lo (map (fun s => percentile_on s n (100 * Z.pos cd - cn) (2 * cd)) sorted) &&
+  ql_close tol9 o_hi (map (fun s => percentile_on s n (100 * Z.pos cd + cn) (2 * cd)) sorted) &&
+  intact.
